@@ -58,3 +58,21 @@ def interval_boundaries(self):
 
 def point_times(self):
     return [p.time for p in self._entries]
+
+
+# ---- invertIntervalList: "complement of an interval list within bounds" (C15; the keep/delete partition of C17)
+
+
+def pair_gaps(es):
+    """the positive-length stretches between consecutive intervals"""
+    return [(es[i][1], es[i + 1][0]) for i in range(len(es) - 1) if es[i][1] < es[i + 1][0]]
+
+
+def complement(es, minValue=None, maxValue=None):
+    """the stretches of [minValue, maxValue] not covered by the (sorted, disjoint, valid) intervals, in order; an
+    absent bound means no stretch on that side"""
+    if len(es) == 0:
+        return [(minValue, maxValue)]
+    head = [(minValue, es[0][0])] if minValue is not None and minValue < es[0][0] else []
+    tail = [(es[-1][1], maxValue)] if maxValue is not None and es[-1][1] < maxValue else []
+    return head + pair_gaps(es) + tail
